@@ -123,6 +123,17 @@ Theorem C09_default_mode_line_numbers_of_tags_comments_doctypes_eof :
 Proof. exact html_default_mode_line_law_tokens. Qed.
 Print Assumptions C09_default_mode_line_numbers_of_tags_comments_doctypes_eof.
 
+(* with the entity table of the pinned source no hypothesis is left: every fuel above the explicit bound *)
+Theorem C09_default_mode_line_numbers_match_source_pinned_entities :
+  forall c1 sk input fuel s0 last,
+  (html_fuel (length input) <= fuel)%nat -> (4 <= fuel)%nat ->
+  forall t ln k,
+  In (t, ln, k) (obs (mout (fst (drive_chunked html_flavour false html_table html_simd (alookup entities) c1 sk fuel [] [input]
+                                               (mkmach (init_cfg s0 last false) [] [] 0) [])))) ->
+  ln = 1 + breaks (firstn (N.to_nat k) input).
+Proof. exact (fun c1 sk => html_default_mode_line_law (alookup entities) c1 sk real_entities_ok). Qed.
+Print Assumptions C09_default_mode_line_numbers_match_source_pinned_entities.
+
 (* any chunking (non-empty chunks) of the input, for a sink that never pauses the tokenizer: positions count in the
    concatenated input *)
 Theorem C09_default_mode_line_numbers_match_source_any_chunking :
